@@ -5,6 +5,7 @@
 //! byte taps and dial log, a counting executor, gates, and the TLS fixtures.
 
 pub mod faults;
+pub mod panics;
 pub mod shutdown;
 pub mod tlsworld;
 pub mod traffic;
